@@ -364,6 +364,22 @@ def run_meter(case):
         S.count("huge_int_units")
 
 
+def run_meter_pair(case):
+    """case = [count1, unit1, count2, unit2]: in a freshly loaded meter module the first meter is asked about first
+    (answers not judged here), then the second one is judged as usual."""
+    import importlib
+    S = engine.S
+    importlib.reload(mmeter)
+    c1, u1 = case[0], dec_num(case[1])
+    for name in ("is_valid", "is_compound", "is_simple", "is_asymmetrical", "valid_beat_duration"):
+        try:
+            engine.with_step_budget(getattr(mmeter, name), (u1 if name == "valid_beat_duration" else (c1, u1),), budget=20000)
+        except Exception:                                        # noqa -- judged by the meter clause
+            pass
+    S.count("meter_pairs")
+    run_meter([case[2], case[3]])
+
+
 def meter_units(thorough):
     ints = list(range(-8, 131)) + [255, 256, 257, 1000, 1024, 4096, 65536, 65537, 2 ** 31, 2 ** 32, 2 ** 40, 3 * 2 ** 40,
                                    2 ** 53, 2 ** 53 + 1, 2 ** 64, 2 ** 64 - 1, 10 ** 30, 2 ** 1000, 2 ** 1000 + 1, 3 * 2 ** 1000,
@@ -399,6 +415,7 @@ CLAUSES = {
     "arith": run_arith,
     "helpers": run_helpers,
     "meter": run_meter,
+    "meter_pair": run_meter_pair,
 }
 
 
@@ -429,6 +446,11 @@ def explore(ctx):
         ctx.bound("meter_counts", counts)
         ctx.bound("meter_units", len(_METER["units"]))
         ctx.product("meter", counts, gen_meter)
+    if ctx.want("meter_pair"):
+        pc = [-1, 0, 1, 2, 3, 5, 6, 9]
+        pu = [enc_num(u) for u in (1, 2, 4, 8, 16, 3, 6, 0, 8.0, 4.0, 0.5)]
+        ctx.bound("meter_pair", "every ordered pair of meters over counts %s x %d units, each pair in a freshly loaded module" % (pc, len(pu)))
+        ctx.product("meter_pair", [(c, u) for c in pc for u in pu], lambda m: ([m[0], m[1], c2, u2] for c2 in pc for u2 in pu))
     if not ctx.only:
         ctx.guard("constructed values analysed", ctx.counter("constructed_values_analysed"), 200)
         ctx.guard("near-miss values below the centre", ctx.counter("near_below"), 9000)
